@@ -62,17 +62,21 @@ def run_trace_property(prop, families, tier, seed, replay=None, assumptions=None
         runs = []
         if replay:
             txt = Path(replay).read_text()
+            seen = set()
             for fam in families:
-                if f" {fam.name} " in txt or f" {fam.name}\n" in txt:
+                if fam.name not in seen and (f" {fam.name} " in txt or f" {fam.name}\n" in txt):
+                    seen.add(fam.name)
                     runs.append((fam, [f"--replay={replay}"], "replay"))
         else:
             corpus = sorted((core.VERIF / "corpus" / prop).glob("*.txt")) if (core.VERIF / "corpus" / prop).exists() else []
+            seen = set()
             for fam in families:
                 for c in corpus:
-                    if f" {fam.name}" in c.read_text().split("\n", 1)[0]:
+                    if (fam.name, c) not in seen and f" {fam.name} " in c.read_text().split("\n", 1)[0] + " ":
+                        seen.add((fam.name, c))
                         runs.append((fam, [f"--replay={c}"], "corpus-" + c.stem))
                 args = (fam.thorough_args if thorough else fam.quick_args)
-                runs.append((fam, [f"--seed={seed}"] + args, "gen-" + fam.name))
+                runs.append((fam, [f"--seed={seed}"] + args, "gen-" + getattr(fam, "tag", fam.name)))
         nviol = 0
         for fam, args, tag in runs:
             r = trace.execute(prop, fam.name, args, tag)
@@ -80,7 +84,7 @@ def run_trace_property(prop, families, tier, seed, replay=None, assumptions=None
                 broken.append(f"{fam.name}/{tag}: {r['error']}")
                 continue
             model_by_id = {trace.script_id(h): (h, l) for h, l in r["model"]}
-            fstat = stats["families"].setdefault(fam.name, {"scripts": 0, "nontrivial": 0})
+            fstat = stats["families"].setdefault(getattr(fam, "tag", fam.name), {"scripts": 0, "nontrivial": 0})
             diverged = None
             for header, lines in r["impl"]:
                 sid = trace.script_id(header)
@@ -146,7 +150,7 @@ def run_trace_property(prop, families, tier, seed, replay=None, assumptions=None
     if broken and not violations and ok and not replay:
         for fam in families:
             args = [f"--seed={seed + 7919}"] + [a.replace("--scripts=", "--scripts=") for a in fam.thorough_args]
-            r = trace.execute(prop, fam.name, args, "search-" + fam.name)
+            r = trace.execute(prop, fam.name, args, "search-" + getattr(fam, "tag", fam.name))
             if "error" in r:
                 continue
             for header, lines in r["impl"]:
